@@ -118,6 +118,17 @@ func (api *HTTP) getMessages(ctx context.Context, lastSeen robust.Id, msgschan c
 			continue
 		}
 
+		if msgs[0].Id.Id == lastSeen.Id {
+			// The messages which were generated in reply to the input message
+			// the client has seen last only arrived now (this server was
+			// behind when the client connected): the client already has
+			// the first lastSeen.Reply of them, send only the remainder.
+			if int(lastSeen.Reply) >= len(msgs) {
+				continue
+			}
+			msgs = msgs[lastSeen.Reply:]
+		}
+
 		lastSeen = msgs[0].Id
 		select {
 		case <-ctx.Done():
